@@ -284,13 +284,17 @@ Section OptionMembers.
   Variable ser : id -> rval -> option json.
 
   (* a missing Option member (no `default`) is None *)
+  (* IR/Serde.v [missing]: an absent member without default is accepted exactly when
+     its type reads null as the bare None, which an Option type does ([de] with
+     fuel >= 1: option_member_missing_de below) *)
   Lemma option_member_missing p r kvs w t xs :
     p_state p = PRequired -> get_det T (p_ty p) = Some (DOption t) ->
+    de (p_ty p) JNull = Some ROptNone ->
     wire_name p = Some w -> assoc w kvs = None ->
     de_named T de dflt r kvs = Some xs ->
     de_named T de dflt (p :: r) kvs = Some ((p_name p, ROptNone) :: xs).
   Proof.
-    intros Hs Hd Hw Ha Hr. simpl. rewrite Hw, Ha. unfold missing. rewrite Hs, Hd, Hr. reflexivity.
+    intros Hs Hd Hn Hw Ha Hr. simpl. rewrite Hw, Ha. unfold missing. rewrite Hs, Hd, Hn, Hr. reflexivity.
   Qed.
 
   (* skip_serializing_if = "Option::is_none": a None member is not written ... *)
@@ -320,6 +324,16 @@ Section OptionMembers.
   Lemma default_val_option fuel i t : get_det T i = Some (DOption t) -> default_val T (S fuel) i = Some ROptNone.
   Proof. intros H. simpl. rewrite H. reflexivity. Qed.
 End OptionMembers.
+
+Lemma option_member_missing_de re native T f dflt p r kvs w t xs :
+  p_state p = PRequired -> get_det T (p_ty p) = Some (DOption t) ->
+  wire_name p = Some w -> assoc w kvs = None ->
+  de_named T (Serde.de re native T (S f)) dflt r kvs = Some xs ->
+  de_named T (Serde.de re native T (S f)) dflt (p :: r) kvs = Some ((p_name p, ROptNone) :: xs).
+Proof.
+  intros Hs Hd. apply option_member_missing with t; [exact Hs | exact Hd|].
+  rewrite de_S, Hd. reflexivity.
+Qed.
 
 (* ------------------------------------------------------------------ from a wire-equivalence checker *)
 Section FromEquiv.
